@@ -7,7 +7,7 @@ from hypothesis import strategies as st
 import mido
 import mido.backends._parser_queue as pq_mod
 import mido.ports as ports_mod
-from lib.doubles import WirePort
+from lib.doubles import KeepPort, WirePort
 from lib.harness import exc_sig, fail
 from lib.sched import Scheduler
 
@@ -108,6 +108,9 @@ def build_world(prog, sched):
         send = port.send
     elif kind == 'echo':
         port = ports_mod.EchoPort()
+        send = port.send
+    elif kind == 'keep':
+        port = KeepPort('k')
         send = port.send
     elif kind == 'ioport-same':
         dev = WirePort('d')
@@ -361,7 +364,7 @@ def nontrivial(case):
 
 def small_programs():
     progs = []
-    for port in ('wire', 'echo', 'ioport-same', 'ioport-pair', 'ioport-shared', 'multi', 'multi-yield', 'pqueue'):
+    for port in ('wire', 'echo', 'keep', 'ioport-same', 'ioport-pair', 'ioport-shared', 'multi', 'multi-yield', 'pqueue'):
         two = 2 if not port.startswith('multi') else 4
         progs.append({'port': port, 'senders': [1, 1], 'receivers': [{'mode': 'poll', 'quota': two}], 'sysex': True})
         progs.append({'port': port, 'senders': [2], 'receivers': [{'mode': 'poll', 'quota': two // 2},
@@ -380,7 +383,7 @@ def small_programs():
         if port in ('wire', 'echo'):
             progs.append({'port': port, 'senders': [1, 1], 'receivers': [{'mode': 'poll', 'quota': 2}], 'sysex': 'same-type',
                           'deep': True})
-        if port in ('echo', 'multi', 'multi-yield'):
+        if port in ('echo', 'keep', 'multi', 'multi-yield'):
             # object-keeping ports with a real-time message that the sender changes right after send()
             progs.append({'port': port, 'senders': [2], 'receivers': [{'mode': 'poll', 'quota': two}], 'sysex': 'rt',
                           'mutate': True})
@@ -462,7 +465,7 @@ def enum_shard(rec, shard):
 
 @st.composite
 def drawn_cases(draw):
-    port = draw(st.sampled_from(['wire', 'echo', 'ioport-same', 'ioport-pair', 'ioport-shared', 'multi', 'multi-yield',
+    port = draw(st.sampled_from(['wire', 'echo', 'keep', 'ioport-same', 'ioport-pair', 'ioport-shared', 'multi', 'multi-yield',
                                  'pqueue']))
     senders = draw(st.lists(st.integers(1, 3), min_size=1, max_size=3))
     total = sum(senders) * (2 if port.startswith('multi') else 1)
@@ -475,7 +478,7 @@ def drawn_cases(draw):
         recs = [{'mode': draw(st.sampled_from(modes)), 'quota': q},
                 {'mode': draw(st.sampled_from(modes)), 'quota': total - q}]
     prog = {'port': port, 'senders': senders, 'receivers': recs,
-            'sysex': draw(st.sampled_from([False, True, 'rt'] if port in ('echo',) else [False, True])),
+            'sysex': draw(st.sampled_from([False, True, 'rt'] if port in ('echo', 'keep') else [False, True])),
             'mutate': draw(st.booleans()), 'shuffle': draw(st.integers(0, 1))}
     sched = draw(st.lists(st.sampled_from([0, 0, 0, 0, 0, 0, 0, 0, 0, 1, 2, 3]), max_size=600))
     return {'prog': prog, 'sched': sched, 'first': draw(st.integers(0, 4))}
